@@ -62,6 +62,10 @@ def classify_site(kind, term, to_bits, src_ty=None, flows=True):
     if kind == 'overflow' and not flows: return 'internal'
     if kind == 'narrowing':
         if has_size_leaf(term) or (src_ty == 'usize'): return 'unguarded'
+        # a quantity *computed* from caller values (a range size max - min + 1, an offset + 1 ...) is a size/count in the
+        # sense of the property even when no len() is involved; a plain argument or field narrowed byte-wise is a value
+        u = strip_trunc(term)
+        if u[0] == 'lin' and (len(u[1]) >= 2 or (u[2] != 0 and len(u[1]) >= 1)): return 'unguarded'
         return 'value'
     return 'unguarded'
 
@@ -92,6 +96,7 @@ def run(ctx, rep):
     def note(kind, fn, what, term, bits, sp, src_ty=None, extra=None, flows=True):
         cls = classify_site(kind, term, bits, src_ty, flows)
         key = '%s:%s:%s' % (kind, fn, what)
+        if sp is None and fn in f.bodies: sp = f.bodies[fn].get('sp')
         if key not in sites: sites[key] = {'kind': kind, 'fn': fn, 'what': what, 'class': cls, 'sp': sp, 'term': show(term), 'extra': extra}
     def harvest(I, outputs=()):
         visited_casts.update(I.visited_casts); visited_arith.update(I.visited_arith)
